@@ -338,7 +338,18 @@ func (l *tcpTransportListener) Listen(ctx context.Context, addr net.Addr) error 
 }
 
 func (l *tcpTransportListener) serve(listener net.Listener) {
-	defer close(l.connChan)
+	defer func() {
+		close(l.connChan)
+		select {
+		case <-l.done:
+			// The connections that are still in the queue (see ConnBuffer) will not be
+			// taken by Accept anymore, so they should be closed instead of left open.
+			for conn := range l.connChan {
+				_ = conn.Close()
+			}
+		default:
+		}
+	}()
 
 	for {
 		conn, err := listener.Accept()
